@@ -129,6 +129,141 @@ theorem ensure_session_old_spins_witness (n : Nat) :
   simp only [run] at this
   rw [this]
 
+/-! ### any number of callers blocked on the same object (notify_all reaches every one) -/
+
+private theorem stepCaller_shared (api : Api) (s : St) :
+    (stepCaller api s).active = s.active ∧ (stepCaller api s).flag = s.flag ∧
+    (stepCaller api s).lossPc = s.lossPc := by
+  unfold stepCaller
+  split
+  · exact ⟨rfl, rfl, rfl⟩
+  · split
+    · exact ⟨rfl, rfl, rfl⟩
+    · split <;> exact ⟨rfl, rfl, rfl⟩
+  · split
+    · exact ⟨rfl, rfl, rfl⟩
+    · split
+      · exact ⟨rfl, rfl, rfl⟩
+      · split
+        · exact ⟨rfl, rfl, rfl⟩
+        · split <;> exact ⟨rfl, rfl, rfl⟩
+
+private theorem notifyAll_get (cs : List (Pc × Bool)) (i : Nat) :
+    (notifyCallers true cs)[i]? = (cs[i]?).map fun c => (c.1, c.2 || (c.1 == .waiting)) := by
+  induction cs generalizing i with
+  | nil => simp [notifyCallers]
+  | cons c rest ih =>
+    obtain ⟨pc, nt⟩ := c
+    cases i with
+    | zero =>
+      simp only [notifyCallers]
+      split <;> simp_all
+    | succ k =>
+      simp only [notifyCallers]
+      split <;> simp [ih]
+
+/-- caller `i` of the many-caller system evolves exactly like the single caller of `run` under the
+    projected schedule: with `notify_all`, callers do not interact -/
+private theorem proj_run (api : Api) (l : Loss) (i : Nat) (sch : List MTid) :
+    ∀ (m : MSt) (c : Pc × Bool), m.cs[i]? = some c →
+    ∃ c', (mrun api l true m sch).cs[i]? = some c' ∧
+      (mrun api l true m sch).view c' = run api l (m.view c) (projSched i sch) := by
+  induction sch with
+  | nil => intro m c h; exact ⟨c, h, rfl⟩
+  | cons t ts ih =>
+    intro m c h
+    cases t with
+    | loss =>
+      simp only [mrun, List.foldl_cons, projSched, run]
+      have key : ∃ c', (mstepLoss api l true m).cs[i]? = some c' ∧
+          (mstepLoss api l true m).view c' = stepLoss api l (m.view c) := by
+        unfold mstepLoss stepLoss
+        simp only [MSt.view]
+        cases hp : (api.prog l)[m.lossPc]? with
+        | none => exact ⟨c, h, rfl⟩
+        | some a =>
+          cases a with
+          | setInactive => exact ⟨c, h, rfl⟩
+          | setFlag => exact ⟨c, h, rfl⟩
+          | notify =>
+            refine ⟨(c.1, c.2 || (c.1 == .waiting)), ?_, rfl⟩
+            simp [notifyAll_get, h]
+      obtain ⟨c1, h1, hv⟩ := key
+      obtain ⟨c2, h2, hv2⟩ := ih (mstepLoss api l true m) c1 h1
+      refine ⟨c2, h2, ?_⟩
+      simp only [mrun, run, step, mstep] at hv2 ⊢
+      rw [hv2, hv]
+    | caller j =>
+      simp only [mrun, List.foldl_cons, projSched]
+      by_cases hj : j = i
+      · subst hj
+        simp only [if_true, run, List.foldl_cons, step]
+        have h1 : (mstep api l true m (.caller j)).cs[j]? =
+            some ((stepCaller api (m.view c)).pc, (stepCaller api (m.view c)).notified) := by
+          simp only [mstep, h]
+          have hlt : j < m.cs.length := by
+            rcases Nat.lt_or_ge j m.cs.length with hl | hl
+            · exact hl
+            · rw [List.getElem?_eq_none hl] at h; cases h
+          simp [List.getElem?_set, hlt]
+        have hv : (mstep api l true m (.caller j)).view
+            ((stepCaller api (m.view c)).pc, (stepCaller api (m.view c)).notified) =
+            stepCaller api (m.view c) := by
+          obtain ⟨ha, hf, hl⟩ := stepCaller_shared api (m.view c)
+          simp only [mstep, h, MSt.view] at ha hf hl ⊢
+          cases hs : stepCaller api { active := m.active, flag := m.flag, lossPc := m.lossPc, pc := c.1, notified := c.2 }
+          simp_all
+        obtain ⟨c2, h2, hv2⟩ := ih _ _ h1
+        refine ⟨c2, h2, ?_⟩
+        simp only [mrun, run] at hv2 ⊢
+        rw [hv2, hv]
+      · simp only [hj, if_false]
+        have h1 : (mstep api l true m (.caller j)).cs[i]? = some c := by
+          simp only [mstep]
+          cases hc : m.cs[j]? with
+          | none => exact h
+          | some cj =>
+            simp only
+            rw [List.getElem?_set_ne (by omega)]
+            exact h
+        have hv : (mstep api l true m (.caller j)).view c = m.view c := by
+          simp only [mstep]
+          cases hc : m.cs[j]? <;> rfl
+        obtain ⟨c2, h2, hv2⟩ := ih _ _ h1
+        refine ⟨c2, h2, ?_⟩
+        simp only [mrun] at hv2 ⊢
+        rw [hv2, hv]
+
+/-- **Every one of any number of callers** blocked on the same channel/transport object returns once the
+shutdown path has finished, under every interleaving of all callers with the shutdown. -/
+theorem all_callers_return (api : Api) (hapi : api ∈ apiTable) (l : Loss) (n i : Nat) (hi : i < n)
+    (sch : List MTid)
+    (hfin : (api.prog l).length ≤ (mrun api l true (minit n) sch).lossPc) :
+    ∃ c, (mrun api l true (minit n) sch).cs[i]? = some c ∧
+      returnsPromptly api l ((mrun api l true (minit n) sch).view c) = true := by
+  have h0 : (minit n).cs[i]? = some (.start, false) := by
+    simp [minit, List.getElem?_replicate, hi]
+  obtain ⟨c, hc, hv⟩ := proj_run api l i sch (minit n) (.start, false) h0
+  refine ⟨c, hc, ?_⟩
+  have hinit : (minit n).view (.start, false) = init := rfl
+  rw [hv, hinit]
+  apply returns_after_loss api hapi l
+  have : (run api l init (projSched i sch)).lossPc = (mrun api l true (minit n) sch).lossPc := by
+    rw [← hinit, ← hv]; rfl
+  simp only [lossFinished, decide_eq_true_eq, this]
+  exact hfin
+
+/-- the `send` row as it would be with `notify()` instead of `notify_all()` in `_set_closed` -/
+def sendRow : Api :=
+  { name := "send", wait := .cvLoop, precheck := false, loopChecksActive := false,
+    prog := fun _ => [.setInactive, .setFlag, .notify] }
+
+/-- with `notify()` (one waiter woken) the second of two blocked senders is never woken -/
+theorem notify_one_strands_second_sender_witness :
+    let m := mrun sendRow .remote false (minit 2) [.caller 0, .caller 1, .loss, .loss, .loss, .caller 0, .caller 1, .caller 1]
+    m.lossPc = 3 ∧ m.cs[0]? = some (.done, true) ∧ m.cs[1]? = some (.waiting, false) := by
+  decide
+
 /-! ### ProxyCommand.recv at end of file -/
 
 /-- repaired loop: whatever the child wrote before exiting, `recv` returns (possibly short / empty) -/
